@@ -50,6 +50,7 @@ type registrar struct {
 	idx   int
 	ops   []RegOp
 	slot  *core.Slot
+	kslots map[int]*core.Slot // per operation: the task that cancels the context of that registration while it is under way ("cancel-mid")
 	res   []*regResult
 	// mirrors
 	mDone     int
@@ -165,6 +166,23 @@ func (g *registrar) exec(res *regResult) {
 			mr.sim.Count(cRegFail)
 		case op.Fail == "cancel":
 			cancel()
+			mr.sim.Count(cRegFail)
+		case op.Fail == "cancel-mid" && g.kslots[res.Idx] != nil:
+			// the caller's context ends at some step while the registration
+			// is under way - or just after it: the tape decides. The
+			// registration succeeds or fails, as one.
+			stop := make(chan struct{})
+			defer close(stop)
+			ks := g.kslots[res.Idx]
+			go func() {
+				if ks.Yield("reg.cancel", core.Always, 0) {
+					select {
+					case <-stop:
+					default:
+						cancel()
+					}
+				}
+			}()
 			mr.sim.Count(cRegFail)
 		case op.Fail == "refl:end":
 			// every answer is delivered, and the stream then ends with an
